@@ -185,3 +185,38 @@ func (a *Analyzer) MappingUsesPresence(fn string) []RuleResult {
 	out = append(out, RuleResult{"B-MAPPRESENT", "(module)", "per-id flag map lookups in " + fn, "", n >= 3, fmt.Sprintf("%d lookups", n)})
 	return out
 }
+
+// MergoModelAssumptions (B-MERGEMODEL): the interpreter does not execute dario.cat/mergo; it uses a stated model of
+// Merge(dst, src, WithAppendSlice, WithTransformers(typeListTransformer{})) in which the TypeList transformer leaves a non-nil
+// destination list alone (the first branch's type wins). That part of the model is about MODULE code, so it is checked: the
+// function typeListTransformer.Transformer hands out has no effect — it only returns nil. If it does anything else, every
+// verdict on allOf/anyOf compositions rests on a false model and is withdrawn (reported).
+func (a *Analyzer) MergoModelAssumptions() []RuleResult {
+	fn := "(pkg/schemas.typeListTransformer).Transformer"
+	f := a.P.Func(fn)
+	if f == nil {
+		return []RuleResult{{"B-MERGEMODEL", fn, "anchor", "", false, "function not found: the mergo model's assumption about the TypeList transformer cannot be checked"}}
+	}
+	var out []RuleResult
+	n := 0
+	for _, an := range f.AnonFuncs {
+		n++
+		ok, why := true, "returns nil and does nothing else"
+		for _, b := range an.Blocks {
+			for _, in := range b.Instrs {
+				switch x := in.(type) {
+				case *ssa.Return:
+					if len(x.Results) != 1 || !isNilConst(x.Results[0]) {
+						ok, why = false, "returns "+x.String()
+					}
+				case *ssa.DebugRef:
+				default:
+					ok, why = false, "does more than return nil ("+in.String()+"): a non-nil destination type list is changed by the merge, which the composition model does not reproduce"
+				}
+			}
+		}
+		out = append(out, RuleResult{"B-MERGEMODEL", fn, fmt.Sprintf("the TypeList transformer #%d is a no-op (first branch's type wins)", n-1), a.P.Pos(an.Pos()), ok, why})
+	}
+	out = append(out, RuleResult{"B-MERGEMODEL", fn, "transformer functions", "", n >= 1, fmt.Sprintf("%d", n)})
+	return out
+}
